@@ -76,3 +76,15 @@ package database
 //@   trusted
 //@   requires q != nil
 //@   ensures ret1 == nil ==> ret0.Success == dkgEonSucceeded(eon)
+//@
+//@ // C20, producer side: ghost traces of the rows written when a key generation ends
+//@ evdecl insEonKey(Int)
+//@ evdecl insDKGResult(Int, Bool)
+//@ func (*Queries).InsertEonPublicKey
+//@   trusted
+//@   requires q != nil
+//@   event insEonKey(arg.Eon)
+//@ func (*Queries).InsertDKGResult
+//@   trusted
+//@   requires q != nil
+//@   event insDKGResult(arg.Eon, arg.Success)
